@@ -17,7 +17,7 @@ func init() { registry["C03"] = checkC03 }
 // concrete spellings of the token kinds of LuaGrammar.tla (the renderer rotates through them)
 var tokSpell = map[string][]string{
 	"name":   {"a", "b", "x1", "_y", "foo", "self", "A_9"},
-	"number": {"0xFFFFFFFFFFFFFFFFULL", "0x8000000000000000LL", "0xcbf29ce484222325ull", "18446744073709551615ULL", "1", "0x1F", "1.5", "1e3", "0x.8p1", "3LL", ".5", "5.", "0xA.8p-2", "7ULL", "9e+2", "12ll", "0X1p4", "1E-2"},
+	"number": {"0xFFFFFFFFFFFFFFFFULL", "0x8000000000000000LL", "0xcbf29ce484222325ull", "18446744073709551615ULL", "1", "0x1F", "1.5", "1e3", "0x.8p1", "3LL", ".5", "5.", "0xA.8p-2", "7ULL", "9e+2", "12ll", "0X1p4", "1E-2", "1e400", "1e-400", "0x1p5000"},
 	"string": {`"s"`, `'s'`, `[[s]]`, `[==[s]==]`, `"a\nb"`, `'\x41'`, `"\u{48}"`, "\"\\z  x\"", `"\065"`, `'\''`, `"\\"`, "[[\nml]]", `"\a\b\f\r\t\v"`, "\"l1\\\nl2\"", "\"l1\\\r\nl2\"", "'l1\\\n\rl2'", "\"l1\\\rl2\""},
 	"unop":   {"not", "#"},
 	"binop":  {"+", "*", "/", "//", "%", "^", "..", "==", "~=", "<", "<=", ">", ">=", "and", "or", "&", "|", "<<", ">>"},
